@@ -74,7 +74,52 @@ func genCase(t *rapid.T) Case {
 		c.Cut = rapid.IntRange(1, 1000).Draw(t, "cut")
 	}
 	c.Flags = rapid.IntRange(0, 3).Draw(t, "flags")
+	if rapid.IntRange(0, 1).Draw(t, "dead?") == 0 {
+		// statements after an unconditional break / continue / next / nextfile / exit / return never run, but they are
+		// statements of the program: each is counted in exactly one block like any other
+		deadCode(t, tree)
+	}
 	return c
+}
+
+func deadCode(t *rapid.T, p *awk.Program) {
+	var list func(l []*awk.Node) []*awk.Node
+	list = func(l []*awk.Node) []*awk.Node {
+		var out []*awk.Node
+		for _, s := range l {
+			s.Body = list(s.Body)
+			s.Else = list(s.Else)
+			out = append(out, s)
+			switch s.K {
+			case awk.Break, awk.Continue, awk.Next, awk.Nextfile, awk.Exit, awk.Return:
+				for n := rapid.IntRange(0, 2).Draw(t, "ndead"); n > 0; n-- {
+					if rapid.Bool().Draw(t, "deadprint") {
+						out = append(out, awk.PrintN([]*awk.Node{awk.StrN("never")}, "", nil))
+					} else {
+						out = append(out, awk.ExprS(awk.IncrN("++", false, awk.VarN("dead_"))))
+					}
+				}
+			}
+		}
+		if l == nil && out == nil {
+			return nil
+		}
+		return out
+	}
+	for i := range p.Begin {
+		p.Begin[i] = list(p.Begin[i])
+	}
+	for _, a := range p.Actions {
+		if !a.NoBody {
+			a.Body = list(a.Body)
+		}
+	}
+	for i := range p.End {
+		p.End[i] = list(p.End[i])
+	}
+	for _, f := range p.Funcs {
+		f.Body = list(f.Body)
+	}
 }
 
 // coverFlags spells the two coverage options: either order, separate or joined with "="
